@@ -9,7 +9,7 @@ if os.path.exists(V + "/seeded/RESULTS.json"):
     res = json.load(open(V + "/seeded/RESULTS.json"))
 for sid in sorted(os.listdir(V + "/seeded")):
     d = os.path.join(V, "seeded", sid)
-    if not os.path.isdir(d) or (only and sid not in only):
+    if not os.path.isdir(d) or not os.path.exists(d + "/meta.json") or (only and sid not in only):
         continue
     meta = json.load(open(d + "/meta.json"))
     pid = meta["property"]
@@ -27,6 +27,7 @@ for sid in sorted(os.listdir(V + "/seeded")):
                 "violations": [v.split("violation:")[1].strip()[:160] for v in viol[:4]], "summary": meta.get("summary", "")[:300], "needs": meta.get("needs", "")[:300]}
     subprocess.run(["git", "-C", "/repo", "reset", "-q"]); subprocess.run(["git", "-C", "/repo", "checkout", "--", "."])
     print(sid, res[sid].get("detected"), res[sid].get("exit"), flush=True)
+    json.dump(res, open(V + "/seeded/RESULTS.json", "w"), indent=1)
 json.dump(res, open(V + "/seeded/RESULTS.json", "w"), indent=1)
 with open(V + "/seeded/RESULTS.md", "w") as f:
     f.write("# Seeded changes and the checks that catch them\n\n| seed | property | detected by `./check <property> quick` | first violation reported | what it needs to manifest |\n|---|---|---|---|---|\n")
